@@ -290,6 +290,7 @@ def run(F, res, tier):
     scratch_stacks_are_balanced(F, res)
     every_child_is_inferred(F, res)
     literal_tables(F, res)
+    resolutions_are_not_memoised_by_name(F, res)
     from rules import c10 as _c10
     _c10.inference_is_memoised(F, res, rule="Y13")
 
@@ -823,3 +824,36 @@ def literal_tables(F, res, rule="Y14"):
         ok = bool(tabs) and all(t_.get(k) == want_ty[k] for t_ in tabs for k in want_ty)
         res.ob(rule, "literal/%s" % fname, "%s gives a literal of kind Int / Float / String the type of the same name" % fname, ok, where=f.loc(),
                how="tables %s" % tabs)
+
+
+def resolutions_are_not_memoised_by_name(F, res, rule="Y15"):
+    """Y15: what a name means depends on where it stands. A function that resolves names through a resolver built for an expression
+    (resolver_for_expr: the scope chain of that expression) must not keep the answers in a table keyed by the name alone: the first
+    occurrence decides for all later ones, and a local that shadows a function of the recursion group hides the call that comes
+    after it (the group is split, inference runs into a query cycle, both functions lose their types). Checked on the types of the
+    locals and captures of every function of crate ide that builds such a resolver: no map or set whose key is a name (SmolStr, str,
+    String) and whose value holds the outcome of a resolution (a definition id, a ResolveResult, a scope)."""
+    import re as _re
+    KEY = _re.compile(r"(?:Hash|BTree|Index|Fx)Map<\s*&?(?:'\w+ )?(?:mut )?(?:smol_str::SmolStr|str|alloc::string::String|std::string::String)\s*,\s*(.*)>$")
+    OUTCOME = _re.compile(r"FunctionId|ResolveResult|Definition|ScopeId|AdtId|VariantId|ConstId|ModuleDefId|TypeAliasId|Idx<ide::def::scope::ScopeData>|hir::")
+    n, bad = 0, []
+    for p_, f in sorted(F.fns.items()):
+        if not p_.startswith(("ide::", "<ide::")) or not f.blocks or "{closure" in p_:
+            continue
+        unit = [f] + [g for q, g in F.fns.items() if q.startswith(p_ + "::{closure") and g.blocks]
+        if not any(FL.short(callee(t) or callee_def(t) or "").endswith(("resolver_for_expr", "resolver_for_toplevel")) for g in unit for _b, t in g.calls()):
+            continue
+        n += 1
+        for g in unit:
+            # tables made here: the destination of a constructor call (new / default / with_capacity / from_iter / collect)
+            for b, t in g.calls():
+                c = FL.short(callee(t) or callee_def(t) or "")
+                if c.rsplit("::", 1)[-1] not in ("new", "default", "with_capacity", "with_hasher", "from_iter", "collect"):
+                    continue
+                ty = (g.local_ty(t["dest"]["l"]) or "").replace("&mut ", "").lstrip("&")
+                m = KEY.search(ty)
+                if m and OUTCOME.search(m.group(1)):
+                    bad.append("%s makes a %s" % (FL.short(g.path), ty[:120]))
+    res.floor("functions of crate ide that resolve names through a per-expression resolver", n, 4)
+    res.ob(rule, "resolution/not-memoised-by-name", "no function that resolves names in the scope of an expression keeps the outcomes in a table keyed by the name alone",
+           not bad, where="crates/ide/src", how="%d functions, none with a name-keyed table of resolution outcomes" % n if not bad else "; ".join(sorted(set(bad))[:4]))
